@@ -92,6 +92,14 @@ Theorem C01_nested_freeze :
        (c' = c \/ c' = rewound c) /\ (ms <> MNil -> c' = rewound c)).
 Proof. exact matching_tree. Qed.
 
+(* the reachable-state invariant offset <= len(buf): MatcherSet.Match / AnyMatch (the only callers
+   of freeze/unfreeze) preserve it, as do Read, prefetch and Wrap (theorems above and below); a
+   matching-mode Read can therefore never fall through to the socket *)
+Theorem C01_matching_keeps_offset_in_range : forall ss c i orc seen r' o',
+  offset c <= length (buf c) -> wfr i ->
+  run_sets ss (L4 c i) orc = (seen, r', o') -> wfr r'.
+Proof. exact run_sets_wf. Qed.
+
 (* ---- Wrap (repaired): the new Connection adds nothing to and removes nothing from the stream ---- *)
 Theorem C01_wrap_stream : forall c conn, stream_of (wrap c conn) = stream_of conn.
 Proof. exact wrap_stream. Qed.
@@ -201,6 +209,7 @@ Print Assumptions C01_matching_is_a_view.
 Print Assumptions C01_rewound_same_stream.
 Print Assumptions C01_matching_reads_are_prefixes.
 Print Assumptions C01_nested_freeze.
+Print Assumptions C01_matching_keeps_offset_in_range.
 Print Assumptions C01_wrap_stream.
 Print Assumptions C01_proxy_protocol.
 Print Assumptions C01_tee_main_chain.
